@@ -78,6 +78,16 @@ def est_blocks(alg, n, key=None):
         b += 4 + (len(key) // B + 2 if len(key) > B else 0)
     return b
 
+# ---- resumed streams (kind "resume"): wide counters are Python ints here, hex for the driver, 16-bit limbs for TLC
+CNT_LIMBS = {"md5": 4, "sha1": 4, "sha2-256": 4, "sha2-512": 8, "gost3411-2012": 32}
+def limbs(v, k):
+    return [(v >> (16 * i)) & 0xffff for i in range(k)]
+def cnt_hex(alg, v):
+    fam = ALGS[alg][2]
+    if fam == "gost3411-2012": return v.to_bytes(64, "little").hex()     # memory image of the 512-bit vector (N, Sigma)
+    if fam in ("sha2-256", "sha2-512"): return "%032x" % v                # count_hi : count
+    return "%016x" % v
+
 def rbytes(rnd, n):
     return bytes(rnd.getrandbits(8) for _ in range(n))
 
@@ -93,13 +103,20 @@ def run_scenarios(ctx, builds, scen, label, tlc_timeout):
         cs = ",".join(str(c) for c in s["chunks"]) if s["chunks"] else "-"
         if s["kind"] == "hash":
             lines.append("hash %s %d %s %s" % (s["alg"], s["align"], hexs(s["msg"]), cs))
+        elif s["kind"] == "resume":
+            lines.append("resume %s %d %s %s %s %s %s" % (s["alg"], s["align"], hexs(s["h"]), cnt_hex(s["alg"], s["cnt"]),
+                                                          cnt_hex(s["alg"], s["sig"]) if s["sig"] is not None else "-",
+                                                          hexs(s["buf"]), hexs(s["data"])))
+        elif s["kind"] == "ident":
+            lines.append(None)          # a specification identity: nothing to run, TLC checks it with the trace
         else:
             lines.append("hmac %s %d %s %s %s" % (s["alg"], s["align"], hexs(s["key"]), hexs(s["msg"]), cs))
     obs = [[] for _ in scen]
     paths = {}; nanswers = 0
+    driven = [i for i, l in enumerate(lines) if l is not None]
     for bname, exe in builds:
-        res = common.batch_run(exe, lines, timeout=600)
-        for i, a in enumerate(res):
+        res_d = common.batch_run(exe, [lines[i] for i in driven], timeout=600)
+        for i, a in zip(driven, res_d):
             s = scen[i]
             if isinstance(a, dict):
                 k = a["crash"]
@@ -110,6 +127,17 @@ def run_scenarios(ctx, builds, scen, label, tlc_timeout):
                 o = json.loads(a)
             except Exception:
                 raise common.Infra("driver %s answered garbage for %s: %s" % (bname, lines[i][:200], a[:300]))
+            if s["kind"] == "resume":
+                if o.get("consumed") != len(s["data"]):
+                    raise common.Infra("driver %s did not consume the scenario: %s -> %s" % (bname, lines[i][:200], a[:300]))
+                nanswers += 1
+                paths.setdefault((ALGS[s["alg"]][2], o["path"] + "/resumed"), 0)
+                paths[(ALGS[s["alg"]][2], o["path"] + "/resumed")] += 1
+                rec = {"b": [bname + "/" + o["path"]], "dg": ints(o["dg"]), "zero": o["zero"]}
+                same = [x for x in obs[i] if all(x[k] == rec[k] for k in rec if k != "b")]
+                if same: same[0]["b"] += rec["b"]
+                else: obs[i].append(rec)
+                continue
             if o.get("consumed") != len(s["msg"]) or len(o["ups"]) != len(s["chunks"]):
                 raise common.Infra("driver %s did not consume the scenario: %s -> %s" % (bname, lines[i][:200], a[:300]))
             nanswers += 1
@@ -130,9 +158,17 @@ def run_scenarios(ctx, builds, scen, label, tlc_timeout):
     kept = []
     with open(path, "w") as f:
         for s, ob in zip(scen, obs):
-            if not ob: continue
+            if not ob and s["kind"] != "ident": continue
             for o in ob:
                 if isinstance(o["b"], list): o["b"] = ",".join(o["b"])
+            if s["kind"] == "resume":
+                rec = {"k": "resume", "alg": s["alg"], "h": list(s["h"]), "cnt": limbs(s["cnt"], CNT_LIMBS[ALGS[s["alg"]][2]]),
+                       "sig": limbs(s["sig"], 32) if s["sig"] is not None else [], "buf": list(s["buf"]), "data": list(s["data"]),
+                       "cs": [], "obs": ob}
+                f.write(json.dumps(rec, separators=(",", ":")) + "\n"); kept.append(s); continue
+            if s["kind"] == "ident":
+                rec = {"k": "ident", "alg": s["alg"], "m": list(s["m"]), "j": s["j"], "b": s["b"], "cs": [], "obs": []}
+                f.write(json.dumps(rec, separators=(",", ":")) + "\n"); kept.append(s); continue
             off = 0; cs = []
             for c in s["chunks"]:
                 cs.append(list(s["msg"][off:off + c])); off += c
@@ -158,18 +194,20 @@ def run_scenarios(ctx, builds, scen, label, tlc_timeout):
     seen = {}
     for rp in reports:
         s = kept[rp["tid"] - 1]
-        i = scen.index(s)
+        i = [n for n, x in enumerate(scen) if x is s][0]
         if rp["bad"].startswith("spec:"):
-            raise common.Infra("specification self-check failed inside TraceHash (spec bug, not a code verdict): %s on %s" % (rp, lines[i][:300]))
+            raise common.Infra("specification self-check failed inside TraceHash (spec bug, not a code verdict): %s on %s"
+                               % (rp, (lines[i] or repr({k: v for k, v in s.items() if k != "m"}))[:300]))
         grp = rp["build"].split(",")
         bpath = "all-builds" if len(grp) == len(builds) and len(builds) > 1 else "+".join(sorted(set(x.split("/")[-1] for x in grp)))
         key = "%s[%s]:%s" % (s["alg"], bpath, rp["bad"])
+        if s.get("label"): key += ":" + s["label"]          # resumed streams: which region of the byte counter
         ob = [o for o in obs[i] if o["b"] == rp["build"]]
         detail = {"build": rp["build"], "step": rp["pos"], "what": rp["bad"], "driver_line": lines[i][:2000],
                   "expected_by_TLA_reference": bytes(rp["expected"]).hex() if rp["expected"] and max(rp["expected"]) < 256 else rp["expected"],
                   "observed": {k: (bytes(v).hex() if isinstance(v, list) and v and isinstance(v[0], int) else v)
                                for k, v in (ob[0].items() if ob else []) if k != "ups"},
-                  "observed_updates": [(u["count"], bytes(u["buf"]).hex()) for u in ob[0]["ups"]] if ob else None}
+                  "observed_updates": [(u["count"], bytes(u["buf"]).hex()) for u in ob[0]["ups"]] if ob and "ups" in ob[0] else None}
         seen[key] = seen.get(key, 0) + 1
         if seen[key] == 1:          # one violation per key; the count of further scenarios with the same key goes to the log
             ctx.fail(key, json.dumps(detail, indent=1), {"driver_line": lines[i], "build": rp["build"], "report": rp})
